@@ -231,8 +231,29 @@ class C09:
             none_ret = [r for r in s.returns if ("cmp", "is", yt, NONE) in conjuncts(r.live)]
             some_ret = [r for r in s.returns if ("cmp", "isnot", yt, NONE) in conjuncts(r.live)]
             w_none = ("bin", "-", ("const", 1), ("call", ("attr", ys, "sum"), (), ()))
-            if len(none_ret) == 1 and len(some_ret) == 1 and canon(none_ret[0].term) == canon(w_none) and some_ret[0].term == ("sub", ys, yt):
+            nt = none_ret[0].term if len(none_ret) == 1 else None
+            clamped = False
+            if nt is not None and nt[0] == "call" and nt[1] in (("builtin", "max"), ("ext", "numpy.maximum")) and len(nt[2]) == 2 and not nt[3]:
+                z_ = [a for a in nt[2] if a in (("const", 0), ("const", 0.0))]
+                o_ = [a for a in nt[2] if a not in z_]
+                if len(z_) == 1 and len(o_) == 1:
+                    nt, clamped = o_[0], True
+            if nt is not None and nt[0] == "call" and nt[1] == ("builtin", "float") and len(nt[2]) == 1:
+                nt = nt[2][0]
+            if nt is not None and len(some_ret) == 1 and canon(nt) == canon(w_none) and some_ret[0].term == ("sub", ys, yt):
                 ctx.ok("R09.3", site, "y_score[y_true], or 1 - sum(y_score) for an unlabelled item")
+                # R09.7: the scores come from prediction_encoding as float32; the float32 sum of scores that add up to 1 (0.3 + 0.4 +
+                # 0.1 + 0.2) is 1.0000001, so 1 - sum is -1.19e-07 and the `score >= 0` constraint of Match / ClipEvaluation /
+                # Evaluation rejects the whole evaluation: the 'none' probability must be clamped at 0
+                if clamped:
+                    ctx.ok("R09.7", site, "the 'none' probability 1 - sum(scores) is clamped at 0")
+                else:
+                    ctx.bad("R09.7", file, fname, "return 1 - y_score.sum() (unclamped)",
+                            f"metrics.{fname} returns `1 - y_score.sum()` for an unlabelled item without clamping it at 0: the scores are "
+                            f"float32 (prediction_encoding), and for scores that add up to exactly 1 their float32 sum is 1.0000001, so the "
+                            f"result is -1.19e-07 -- the ge=0 constraint on score then rejects the match / clip evaluation and the whole "
+                            f"task call fails with a ValidationError", none_ret[0].lineno,
+                            witness={"scores": [0.3, 0.4, 0.1, 0.2], "float32_sum": 1.0000001192092896, "returned": -1.1920928955078125e-07})
             else:
                 ctx.bad("R09.3", file, fname, "return y_score[y_true] / 1 - y_score.sum()",
                         f"metrics.{fname} is not `y_score[y_true]` (and `1 - y_score.sum()` for None): "
@@ -400,6 +421,41 @@ class C09:
                                 f"rejects", e.lineno, witness={"input": "a clip without evaluated items", "value": "nan"})
 
     # ------------------------------------------------------------------ R09.5
+    def clip_evaluations_constructible(self):
+        """R09.8: every task wraps its per-clip result in data.ClipEvaluation, whose validator (C04) demands a match for EVERY sound
+        event of the annotations and of the predictions it is given.  A task that hands over the whole clip annotation / prediction
+        without any matches therefore fails with a ValidationError for every clip that carries sound events -- the metrics are never
+        returned."""
+        ctx = self.ctx
+        CE = "soundevent.data.clip_evaluations:ClipEvaluation"
+        for tm in TASK_MODS:
+            modname = f"{TASKS}.{tm}"
+            m = ctx.index.module(modname)
+            for name, defs in m.defs.items():
+                if not any(isinstance(d, ast.FunctionDef) for d in defs):
+                    continue
+                try:
+                    s = ctx.summ.of_func(modname, name)
+                except Exception:  # noqa: BLE001
+                    continue
+                for e in s.calls:
+                    t = e.term
+                    if not (t[1][0] == "global" and ctx.index.canonical_qual("class", t[1][1]) == CE):
+                        continue
+                    kw = callkw(t)
+                    site = f"{m.relpath}:{e.lineno} {name}"
+                    mt = kw.get("matches")
+                    whole = [k for k in ("annotations", "predictions") if kw.get(k, NONE)[0] == "param"]
+                    if (mt is None or mt in (("list", ()), NONE)) and whole:
+                        ctx.bad("R09.8", m.relpath, name, "data.ClipEvaluation(annotations=<clip annotation>, predictions=<clip prediction>) without matches",
+                                f"{tm}: the per-clip result is built as ClipEvaluation({', '.join(k + '=' + show(kw[k]) for k in whole)}) with no "
+                                f"matches, but ClipEvaluation requires every annotated and every predicted sound event of the objects it is given "
+                                f"to appear in a match: for a clip whose annotation or prediction carries sound events the task raises a "
+                                f"ValidationError ('Not all example sound events were matched') instead of returning the clip-level metrics",
+                                e.lineno, witness={"input": "a ClipAnnotation with one sound event, evaluated by " + tm, "observed": "ValidationError"})
+                    else:
+                        ctx.ok("R09.8", site, "ClipEvaluation built with matches (or from objects assembled for it)")
+
     def task_structure(self):
         ctx = self.ctx
         Feature = ("global", "soundevent.data.features:Feature", "class")
@@ -540,12 +596,15 @@ def run(ctx: Ctx):
     ctx.rule("R09.4", "every mean over a selection is guarded against emptiness", 5)
     ctx.rule("R09.5", "tasks build metric lists from their own tables, at the right level, under their own name", 18)
     ctx.rule("R09.6", "per-item results and truth / score rows are accumulated in lock-step", 6)
+    ctx.rule("R09.8", "per-clip results are constructible: ClipEvaluation gets a match for every sound event it is handed", 4)
+    ctx.rule("R09.7", "the 'none' probability of an unlabelled item cannot go below 0 (float32 score sums)", 2)
     c = C09(ctx)
     c.tables()
     c.labels()
     c.wrappers()
     c.means()
     c.task_structure()
+    c.clip_evaluations_constructible()
     c.lockstep()
     # "survives an AOEF save/load with every metric intact": the field-carry / elision rules of C01 on the three
     # metric-carrying adapters (anchored files io/aoef/evaluation.py, clip_evaluation.py, match.py)
